@@ -906,51 +906,6 @@ def return_values(fn, du, rd):
 
 
 # ------------------------------------------------------------------------------ guards by role
-def only_if(cfg, nid, atom, want=True, kills=()):
-  """Every entry->nid path last learned atom == want (spelling of the guard does not matter)."""
-  from ..guards import guarded_by
-  return guarded_by(cfg, nid, atom, want, kills)
-
-
-def whenever(cfg, targets, atom, want=True, stops=None):
-  """Once a branch has established atom == want, every way on from there passes one of the
-  `targets` nodes before it reaches one of `stops` (default: the normal exit). False when no
-  branch establishes the fact at all."""
-  from ..guards import establishing_edges
-  edges = establishing_edges(cfg, atom, want)
-  if not edges:
-    return False
-  stops = set(stops) if stops is not None else {cfg.exit.id}
-  targets = set(targets)
-  starts = {b for (a, b) in edges}
-  return not (cfg.reach(starts, removed=targets) & stops)
-
-
-def guard_atoms(cfg, nid):
-  """[(expr, polarity)] facts that hold on every path to node nid, from the `if` tests whose
-  branches are cut by it: a fact is listed when nid is unreachable once the edges establishing
-  the opposite... (conservative: facts of every `if` one of whose two sides cannot reach nid)."""
-  from ..guards import facts
-  out = []
-  for n in cfg.nodes:
-    if n.kind != "if" or n.id not in cfg.if_true:
-      continue
-    t_succ = cfg.if_true[n.id]
-    exc = cfg.if_exc.get(n.id, set())
-    f_succ = set(cfg.succ[n.id]) - t_succ - exc
-    if nid not in cfg.reach_after({n.id}):
-      continue
-    via_t = nid in cfg.reach(t_succ) if t_succ else False
-    via_f = nid in cfg.reach(f_succ) if f_succ else False
-    # only sound when the `if` is not in a cycle with nid between (loops re-test the condition);
-    # the callers use it for straight-line guards inside one loop iteration or function body
-    if via_t and not via_f:
-      out.extend(facts(n.stmt.test, True))
-    elif via_f and not via_t:
-      out.extend(facts(n.stmt.test, False))
-  return out
-
-
 def loop_heads_around(fn, cfg, stmt):
   """ids of the CFG loop-header nodes of the loops lexically enclosing stmt."""
   from ..astutil import enclosing_chain
@@ -1011,3 +966,172 @@ def impossible_edges(cfg, atom_value):
 def reach_assuming(cfg, starts, atom_value, removed=()):
   """Nodes reachable from starts on paths consistent with the assumed atom values."""
   return _reach_cut_edges(cfg, set(starts), impossible_edges(cfg, atom_value), removed)
+
+
+def test_atoms(test):
+  """Leaf expressions of a test after peeling not / and / or."""
+  out = []
+  def go(e):
+    if isinstance(e, ast.UnaryOp) and isinstance(e.op, ast.Not):
+      go(e.operand)
+    elif isinstance(e, ast.BoolOp):
+      for v in e.values:
+        go(v)
+    else:
+      out.append(e)
+  go(test)
+  return out
+
+
+# ------------------------------------------------------------------- CFG with helpers spliced in
+class InlinedCFG(object):
+  """A CFG of fn in which calls of same-class private helpers / same-module functions (those for
+  which select(FuncInfo) holds) are replaced by the helper's own CFG, so that path questions about
+  attribute-level events (`self.x = ...`, `self.f()`) get the same answer whether a group of
+  statements is written in place or extracted into a helper called at that point. Nodes keep
+  their statements; `owner[node id]` is the Fn the statement is written in. Only nodes with
+  exactly one such call, written as a statement of its own (`self.h(...)`, `x = self.h(...)`,
+  `return self.h(...)`), are expanded; locals do not carry across the boundary, so rules must not
+  compare local names of different owners."""
+
+  def __init__(self, w, fn, exceptional=False, depth=2, select=None, _stack=()):
+    from ..cfg import CFG, Node
+    base = fn.xcfg if exceptional else fn.cfg
+    c = CFG.__new__(CFG)
+    c.fnode = base.fnode
+    c.may_raise = base.may_raise
+    c.nodes = [Node(n.id, n.kind, n.stmt, n.exprs) for n in base.nodes]
+    c.succ = {k: set(v) for k, v in base.succ.items()}
+    c.pred = {k: set(v) for k, v in base.pred.items()}
+    c.exc_edges = set(base.exc_edges)
+    c.if_true = {k: set(v) for k, v in base.if_true.items()}
+    c.if_exc = {k: set(v) for k, v in base.if_exc.items()}
+    c.entry, c.exit, c.raise_exit = c.nodes[base.entry.id], c.nodes[base.exit.id], \
+        c.nodes[base.raise_exit.id]
+    c._marking_exc = False
+    c._implicit_srcs = set(getattr(base, "_implicit_srcs", ()))
+    c._exc_pred_filter = None
+    self.cfg = c
+    self.owner = {n.id: fn for n in c.nodes}
+    self.call_of = {}          # first node id of a spliced body -> id of the calling node
+    self.spliced = {}          # calling node id -> set of node ids of the helper's body
+    if depth <= 0:
+      return
+    for n in list(base.nodes):
+      if n.kind not in ("stmt", "return") or n.stmt is None:
+        continue
+      s = n.stmt
+      v = s.value if isinstance(s, (ast.Expr, ast.Assign, ast.Return)) else None
+      if not isinstance(v, ast.Call):
+        continue
+      fi = local_callee(w, fn, v)
+      if fi is None or fi.qualname == fn.qualname or fi.qualname in _stack:
+        continue
+      if select is not None and not select(fi):
+        continue
+      if any(isinstance(x, (ast.Yield, ast.YieldFrom)) for x in ast.walk(fi.node)):
+        continue
+      sub = InlinedCFG(w, w.fn_of(fi), exceptional, depth - 1, select, _stack + (fn.qualname,))
+      self._splice(n.id, sub)
+
+  def _splice(self, nid, sub):
+    from ..cfg import Node
+    c, h = self.cfg, sub.cfg
+    m = {}
+    for hn in h.nodes:
+      if hn.id in (h.entry.id, h.exit.id, h.raise_exit.id):
+        continue
+      nn = Node(len(c.nodes), hn.kind if hn.kind != "return" else "return*", hn.stmt, hn.exprs)
+      c.nodes.append(nn)
+      c.succ[nn.id] = set()
+      c.pred[nn.id] = set()
+      m[hn.id] = nn.id
+      self.owner[nn.id] = sub.owner[hn.id]
+    normal_out = {t for t in c.succ[nid] if (nid, t) not in c.exc_edges}
+    exc_out = {t for t in c.succ[nid] if (nid, t) in c.exc_edges}
+    if c.nodes[nid].kind == "return":
+      normal_out = {c.exit.id}
+    for t in normal_out:
+      c.succ[nid].discard(t)
+      c.pred[t].discard(nid)
+    def link(a, b, exc=False):
+      c.succ[a].add(b)
+      c.pred[b].add(a)
+      if exc:
+        c.exc_edges.add((a, b))
+    for a in h.nodes:
+      for b in h.succ[a.id]:
+        is_exc = (a.id, b) in h.exc_edges
+        srcs = [nid] if a.id == h.entry.id else ([m[a.id]] if a.id in m else [])
+        for src in srcs:
+          if b == h.exit.id:
+            for t in normal_out:
+              link(src, t)
+          elif b == h.raise_exit.id:
+            for t in (exc_out or {c.raise_exit.id}):
+              link(src, t, exc=is_exc)
+          elif b in m:
+            link(src, m[b], exc=is_exc)
+    for k, v in h.if_true.items():
+      if k in m:
+        c.if_true[m[k]] = {m[x] for x in v if x in m} | \
+            (normal_out if h.exit.id in v else set())
+    for k, v in h.if_exc.items():
+      if k in m:
+        c.if_exc[m[k]] = {m[x] for x in v if x in m}
+    self.spliced[nid] = set(m.values())
+    for k, v in sub.spliced.items():
+      if k in m:
+        self.spliced[m[k]] = {m[x] for x in v if x in m}
+
+  def calls(self):
+    """[(node, Call, dotted name expanded with the aliases of the function it is written in)]."""
+    out = []
+    for n in self.cfg.nodes:
+      f = self.owner[n.id]
+      for c in calls_in(n.exprs):
+        out.append((n, c, f.name(c)))
+    return out
+
+
+def is_var(fn, e, name, depth=0):
+  """Expression e is local/parameter `name`, or a local that is a plain copy of it."""
+  if not isinstance(e, ast.Name) or depth > 6:
+    return False
+  if e.id == name:
+    return True
+  v = alias_value(fn, e.id, pure_only=True)
+  return isinstance(v, ast.Name) and is_var(fn, v, name, depth + 1)
+
+
+def nonempty_value(fn, e, name):
+  """Truth value expression e has when collection local `name` is non-empty (True / False), for
+  the spellings `name`, `len(name)`, `len(name) > 0`, `!= 0`, `>= 1`, `== 0`, `bool(name)`;
+  None for anything else."""
+  if isinstance(e, ast.Call) and dotted(e.func) == "bool" and len(e.args) == 1:
+    return nonempty_value(fn, e.args[0], name)
+  if is_var(fn, e, name):
+    return True
+  is_len = lambda x: isinstance(x, ast.Call) and dotted(x.func) == "len" and len(x.args) == 1 and \
+      is_var(fn, x.args[0], name)
+  if is_len(e):
+    return True
+  if isinstance(e, ast.Compare) and len(e.ops) == 1:
+    l, r, op = e.left, e.comparators[0], e.ops[0]
+    if is_len(r) and isinstance(l, ast.Constant):
+      l, r = r, l
+      op = {ast.Lt: ast.Gt, ast.Gt: ast.Lt, ast.LtE: ast.GtE, ast.GtE: ast.LtE}.get(type(op),
+                                                                                   type(op))()
+    if is_len(l) and isinstance(r, ast.Constant) and isinstance(r.value, int):
+      k = r.value
+      if (isinstance(op, (ast.Gt, ast.NotEq)) and k == 0) or (isinstance(op, ast.GtE) and k == 1):
+        return True
+      if (isinstance(op, ast.Eq) and k == 0) or (isinstance(op, ast.Lt) and k == 1) or \
+          (isinstance(op, ast.LtE) and k == 0):
+        return False
+    if is_var(fn, l, name) and isinstance(r, (ast.List, ast.Tuple)) and not r.elts:
+      if isinstance(op, ast.NotEq):
+        return True
+      if isinstance(op, ast.Eq):
+        return False
+  return None
